@@ -24,7 +24,7 @@ from props._stores_util import (Interner, SEGMENTS, deep, from_json_cfg, gen_cfg
 PROP = "C17"
 READY = True
 DRIVER = "dm_stores"
-LEAN_MODULES = ["DaskModel.Props.C17", "DaskModel.Props.C17b"]
+LEAN_MODULES = ["DaskModel.Props.C17", "DaskModel.Props.C17b", "DaskModel.Props.C17c"]
 TABLES = ["ConfigTables"]
 CASE_TIMEOUT_S = 10
 LEVEL_TEXT = (
@@ -743,8 +743,219 @@ def inp_var_now(vs, i):
     return vs[i]
 
 
+def case_depr(ctx, inp):
+    """check_deprecations(key, deprecations=table) against the model, and its documented contract"""
+    import warnings
+    import dask.config as dc
+    table = {k: v for k, v in inp["table"]}
+    key = inp["key"]
+    with warnings.catch_warnings(record=True) as w:
+        warnings.simplefilter("always")
+        try:
+            impl = [Sym("ok"), dc.check_deprecations(key, deprecations=table)]
+        except ValueError:
+            impl = [Sym("removed")]
+    ctx.eq("check_deprecations", ctx.lean(Sym("cfg-depr"), [[k, v] for k, v in inp["table"]], key), impl)
+    old = key.replace("_", "-")
+    if old not in table:
+        if impl != [Sym("ok"), key] or w:
+            ctx.fail("check_deprecations changed / warned about a key that is not deprecated", observed=[key, impl, len(w)])
+        ctx.branch("depr-not-listed")
+    elif table[old]:
+        if impl != [Sym("ok"), table[old]] or not any(issubclass(x.category, FutureWarning) for x in w):
+            ctx.fail("check_deprecations: renamed key not replaced with a FutureWarning", observed=[key, impl, len(w)])
+        ctx.branch("depr-renamed" + ("-underscore-spelling" if old != key else ""))
+    else:
+        if impl != [Sym("removed")]:
+            ctx.fail("check_deprecations: removed key did not raise ValueError", observed=[key, impl])
+        ctx.branch("depr-removed")
+
+
+def case_files(ctx, inp):
+    """API level with real files: collect_yaml / collect / refresh over a temporary directory tree + an environment.
+    Documented precedence: later paths over earlier ones, the environment over files, defaults below everything."""
+    import json
+    import os
+    import shutil
+    import tempfile
+    import warnings
+    import yaml
+    import dask.config as dc
+    it = Interner()
+    root = tempfile.mkdtemp(prefix="c17-")
+    try:
+        paths, expected_order = [], []
+        for di, d in enumerate(inp["dirs"]):
+            dpath = os.path.join(root, f"d{di}")
+            if d.get("single_file"):
+                # a path may be a file itself
+                fname, cfg = d["files"][0]
+                os.makedirs(dpath)
+                fpath = os.path.join(dpath, fname)
+                with open(fpath, "w") as f:
+                    f.write(json.dumps(cfg) if fname.endswith(".json") else yaml.safe_dump(cfg, sort_keys=False))
+                paths.append(fpath)
+                expected_order.append(cfg)
+                continue
+            os.makedirs(dpath)
+            for fname, cfg in d["files"]:
+                with open(os.path.join(dpath, fname), "w") as f:
+                    if cfg == "EMPTY":
+                        f.write("")
+                    else:
+                        f.write(json.dumps(cfg) if fname.lower().endswith(".json") else yaml.safe_dump(cfg, sort_keys=False))
+            paths.append(dpath)
+            for fname, cfg in sorted(d["files"], key=lambda fc: os.path.join(dpath, fc[0])):
+                if os.path.splitext(fname)[1].lower() in (".json", ".yaml", ".yml") and cfg != "EMPTY":
+                    expected_order.append(cfg)
+        if inp.get("missing_path"):
+            paths.insert(inp["missing_path"] % (len(paths) + 1), os.path.join(root, "does-not-exist"))
+        got = list(dc.collect_yaml(paths=paths))
+        if got != expected_order:
+            ctx.fail("collect_yaml: files are not read in path order / sorted by name / filtered by extension",
+                     observed=got, expected=expected_order)
+        with_paths = list(dc.collect_yaml(paths=paths, return_paths=True))
+        if [c for _, c in with_paths] != expected_order or not all(os.path.isfile(p) for p, _ in with_paths):
+            ctx.fail("collect_yaml(return_paths=True) does not pair every config with its file", observed=repr(with_paths)[:300])
+        env = {k: v for k, v in inp["env"]}
+        with warnings.catch_warnings():
+            warnings.simplefilter("ignore")
+            try:
+                envcfg = dc.collect_env(env)
+            except (TypeError, ValueError):
+                return
+            res = dc.collect(paths=paths, env=env)
+        sources = [from_json_cfg(c) for c in expected_order] + [envcfg]
+        # the model: going from the highest priority down, `update(result, source, priority="old")`
+        m = [Sym("ok"), []]
+        for src in reversed(sources):
+            m = ctx.lean(Sym("cfg-update"), Sym("old"), m[1], it.enc(src), None)
+            if m[0] != "ok":
+                break
+        ctx.eq("collect(paths, env) vs model (reverse fold of update priority='old')", m, [Sym("ok"), it.enc(res)])
+        # the statement's reading: every scalar of a source survives unless a LATER source says something at/above/below it
+        for si, src in enumerate(sources):
+            later = sources[si + 1:]
+            if _has_both(src) or any(_has_both(x) for x in later):
+                continue
+            for path, v in _leaf_paths(src):
+                if any(_touches(x, path) for x in later):
+                    continue
+                # a MAPPING in a lower-priority source replaces a scalar (None = an empty YAML section, and any other
+                # non-mapping) whatever the priority: that is `update`'s rule for mapping-valued items, not a loss
+                if any(_maps_at(x, path) for x in sources[:si]) or any(_has_both(x) for x in sources[:si]):
+                    continue
+                try:
+                    g = dc.get(".".join(path), config=res)
+                except (KeyError, TypeError) as e:
+                    g = e
+                if not (type(g) is type(v) and g == v):
+                    ctx.fail("collect: a value of a source that no higher-priority source overrides is lost",
+                             observed=[si, path, repr(g)], expected=v)
+        if len(sources) >= 3:
+            ctx.branch("files-3+-sources")
+        if env:
+            ctx.branch("files-with-env")
+        # refresh = defaults below everything
+        defaults = [from_json_cfg(d) for d in inp.get("defaults", [])]
+        cfg = {"stale": 1}
+        with warnings.catch_warnings():
+            warnings.simplefilter("ignore")
+            dc.refresh(config=cfg, defaults=defaults, paths=paths, env=env)
+        want = {}
+        for d in defaults:
+            dc.update(want, deep(d), priority="old")
+        dc.update(want, deep(res))
+        if ordered(cfg) != ordered(want):
+            ctx.fail("refresh is not 'clear, defaults (first wins), then collect() on top'", observed=cfg, expected=want)
+        # a malformed / non-mapping file is an error that names the file
+        bad = os.path.join(root, "bad.yaml")
+        with open(bad, "w") as f:
+            f.write(inp.get("bad", "- a\n- b\n"))
+        try:
+            list(dc.collect_yaml(paths=[bad]))
+            ctx.fail("collect_yaml accepted a file whose top level is not a mapping", observed=inp.get("bad"))
+        except ValueError as e:
+            if "bad.yaml" not in str(e):
+                ctx.fail("collect_yaml: the error does not name the malformed file", observed=str(e)[:200])
+    finally:
+        shutil.rmtree(root, ignore_errors=True)
+
+
+def _touches(cfg, path):
+    """does `cfg` say anything at, above or below `path` (under either spelling of each segment)?"""
+    cur = cfg
+    for p in path:
+        if not isinstance(cur, dict):
+            return True
+        ks = [k for k in cur if k == p or _alt(k) == p or k == _alt(p)]
+        if not ks:
+            return False
+        cur = cur[ks[0]]
+    return True
+
+
+def _maps_at(cfg, path):
+    """does `cfg` hold a mapping at `path` or at a proper prefix position where the walk needs one?"""
+    cur = cfg
+    for p in path:
+        if not isinstance(cur, dict):
+            return False
+        ks = [k for k in cur if k == p or _alt(k) == p or k == _alt(p)]
+        if not ks:
+            return False
+        cur = cur[ks[0]]
+    return isinstance(cur, dict)
+
+
+def case_expand(ctx, inp):
+    """expand_environment_variables: same structure and container types, strings through os.path.expandvars"""
+    import os
+    import dask.config as dc
+
+    def build(j):
+        if isinstance(j, dict):
+            return {k: build(v) for k, v in j.items()}
+        if isinstance(j, list):
+            kind, items = j[0], j[1]
+            vals = [build(x) for x in items]
+            return vals if kind == "list" else tuple(vals) if kind == "tuple" else set(vals)
+        return j
+
+    def ref(x):
+        if isinstance(x, dict):
+            return {k: ref(v) for k, v in x.items()}
+        if isinstance(x, str):
+            return os.path.expandvars(x)
+        if isinstance(x, (list, tuple, set)):
+            return type(x)(ref(v) for v in x)
+        return x
+    saved = {k: os.environ.get(k) for k, _ in inp["vars"]}
+    try:
+        for k, v in inp["vars"]:
+            os.environ[k] = v
+        x = build(inp["value"])
+        x0 = deep(x)
+        got = dc.expand_environment_variables(x)
+        want = ref(x0)
+        if got != want or repr(type(got)) != repr(type(want)):
+            ctx.fail("expand_environment_variables differs from 'expandvars on every string, same containers'",
+                     observed=repr(got)[:300], expected=repr(want)[:300])
+        if x != x0:
+            ctx.fail("expand_environment_variables modified its argument", observed=repr(x)[:300])
+        if got != x0:
+            ctx.branch("expand-changed-something")
+    finally:
+        for k, v in saved.items():
+            if v is None:
+                os.environ.pop(k, None)
+            else:
+                os.environ[k] = v
+
+
 CASES = {"set": case_set, "prog": case_prog, "get": case_get, "update": case_update, "merge": case_merge,
-         "env": case_env, "glue": case_glue, "alias": case_alias, "hist": case_hist}
+         "env": case_env, "glue": case_glue, "alias": case_alias, "hist": case_hist, "depr": case_depr,
+         "files": case_files, "expand": case_expand}
 
 # ------------------------------------------------------------------------------------------------------------
 # generators
@@ -966,6 +1177,44 @@ def generate(ctx):
         yield "hist", _gen_hist(rng)
     if ctx.thorough():
         yield from _exhaustive_histories()
+    # check_deprecations with random tables (hyphen spelling in the table, either spelling asked)
+    dkeys = ["old-key", "a.old-key", "gone", "fuse-ave-width", "x"]
+    for _ in range(ctx.n(120, 1200)):
+        table = []
+        for k in rng.sample(dkeys, rng.randint(0, 4)):
+            table.append([k, rng.choice([None, None, "new.key", "other_key", ""])])
+        key = rng.choice(dkeys + ["old_key", "a.old_key", "fuse_ave_width", "fuse_ave-width", "unknown", "gone_", "OLD-KEY"])
+        yield "depr", {"table": table, "key": key}
+    # real files
+    fnames = ["a.yaml", "b.yml", "c.json", "B.YAML", "z.txt", "0.yaml", "notes.md", "d.JSON"]
+    for _ in range(ctx.n(40, 400)):
+        dirs = []
+        for _d in range(rng.randint(1, 3)):
+            names = rng.sample(fnames, rng.randint(0, 3))
+            files = [[nm, ("EMPTY" if rng.random() < 0.08 else gen_cfg(rng, depth=2, segs=SEG_UPD, leaf=gen_leaf_plain))]
+                     for nm in names]
+            d = {"files": files}
+            if files and files[0][1] != "EMPTY" and files[0][0].lower().endswith((".yaml", ".yml", ".json")) and rng.random() < 0.15:
+                d = {"files": files[:1], "single_file": True}
+            dirs.append(d)
+        env = [["DASK_" + rng.choice(["A", "A__B", "X", "X__Y", "Q"]), rng.choice(["1", "2", "None", "7"])]
+               for _ in range(rng.randint(0, 2))]
+        yield "files", {"dirs": dirs, "env": env, "missing_path": rng.randint(0, 5) if rng.random() < 0.3 else 0,
+                        "defaults": [gen_cfg(rng, depth=2, segs=SEG_UPD, leaf=gen_leaf_plain) for _ in range(rng.randint(0, 2))],
+                        "bad": rng.choice(["- a\n- b\n", "just a string\n", "42\n", "{a: [1, 2\n", "a: 1\n  b: 2\n"])}
+    for _ in range(ctx.n(60, 600)):
+        def gv(depth):
+            r = rng.random()
+            if depth <= 0 or r < 0.4:
+                return rng.choice(["$C17_A", "${C17_B}/x", "plain", "$C17_UNSET", 3, None, 2.5, "$C17_A$C17_B", ""])
+            if r < 0.65:
+                return {rng.choice(["k", "$C17_A", "n"]): gv(depth - 1) for _ in range(rng.randint(0, 3))}
+            kind = rng.choice(["list", "tuple", "set"])
+            items = [gv(depth - 1 if kind != "set" else 0) for _ in range(rng.randint(0, 3))]
+            return [kind, items]
+        v = gv(3)
+        yield "expand", {"value": v if isinstance(v, (dict, list)) else {"k": v},
+                         "vars": [["C17_A", rng.choice(["alpha", "", "with space"])], ["C17_B", rng.choice(["beta", "/tmp"])]]}
     raw_values = ["123", "1.5", "true", "False", "None", "null", "hello", "[1, 2]", "{'a': 1}", "'quoted'", "", "a b",
                   "TRUE", "1e3", "(1, 2)", "foo.bar", "NONE", "nUlL", "FALSE", "none ", "0", "-1", "1_000", "0x10", "tRuE"]
     names = ["A", "A__B", "A__C", "A_B", "A-B", "X", "X__Y", "Q__R_S", "a__b", "A__B__C", "", "A___B", "A__", "__A",
